@@ -234,7 +234,22 @@ func (c *vsCase) classifyPanic(k int) string {
 
 // judge applies clauses (1) and (2) to one packet
 func (c *vsCase) judge(k int, what string) string {
-	r := c.validate(k)
+	return c.judgeResult(k, c.validate(k), what)
+}
+
+// judgeHistory: the packet object of `from` is validated first, then its fields are replaced
+// by those of c, then it is validated again; the second verdict is judged as c's
+func (c *vsCase) judgeHistory(from *vsCase, k int, what string) string {
+	o := from.clone().object() // deep copy: the object must not share storage with `from`
+	o.validate(k)
+	o.validateAll()
+	if !o.apply(c) {
+		return ""
+	}
+	return c.judgeResult(k, o.validate(k), what+"+after-validating-the-original-object")
+}
+
+func (c *vsCase) judgeResult(k int, r string, what string) string {
 	switch r {
 	case "panic":
 		return fail("panic", c.classifyPanic(k)+"/"+what)
@@ -339,6 +354,11 @@ func checkC10Vs(t *Toks) string {
 		}
 		n++
 		note(d.judge(k, what))
+		// the same corruption applied in place to an object that was validated before
+		// (skipped for the two bulk classes, which do not touch transaction fields)
+		if !strings.HasPrefix(what, "sig-bit-flip") && !strings.Contains(what, "+resigned") {
+			note(d.judgeHistory(c, k, what))
+		}
 		return ""
 	}
 	try := func(what string, mut func(d *vsCase) bool) string { return tryFrom(c, what, mut) }
@@ -595,6 +615,27 @@ func checkC10Vs(t *Toks) string {
 			d.ins[k].wit = nil
 			return true
 		}},
+		{"scripts-swapped", func(d *vsCase) bool {
+			if d.ins[k].redeem == nil && d.ins[k].witscript == nil {
+				return false
+			}
+			d.ins[k].redeem, d.ins[k].witscript = d.ins[k].witscript, d.ins[k].redeem
+			return true
+		}},
+		{"witness-script-moved-to-redeem-script", func(d *vsCase) bool {
+			if d.ins[k].witscript == nil {
+				return false
+			}
+			d.ins[k].redeem, d.ins[k].witscript = d.ins[k].witscript, nil
+			return true
+		}},
+		{"redeem-script-moved-to-witness-script", func(d *vsCase) bool {
+			if d.ins[k].redeem == nil {
+				return false
+			}
+			d.ins[k].witscript, d.ins[k].redeem = d.ins[k].redeem, nil
+			return true
+		}},
 		{"redeem-script-replaced", func(d *vsCase) bool {
 			key := d.keyFor(d.ins[k].sigs[0].pub)
 			if key == nil {
@@ -621,6 +662,7 @@ func checkC10Vs(t *Toks) string {
 			continue
 		}
 		note(base.judge(k, v.name))
+		note(base.judgeHistory(c, k, v.name))
 		n++
 		scripts, amounts := base.candidates(k)
 		for _, sc := range scripts {
@@ -689,7 +731,47 @@ func (c *vsCase) signedDigest(k, j int) []byte {
 
 var _ = sha256.Sum256
 
+// S on a two-step history: every verdict obtained from the one object is judged
+func checkC10Vh(t *Toks) string {
+	a, b := readVh(t)
+	if a.idx >= len(a.ins) || b.idx >= len(b.ins) {
+		return "SKIP caller-index-out-of-range"
+	}
+	for _, c := range []*vsCase{a, b} {
+		if c.ver == 0 && len(c.tx.Inputs) != len(c.ins) {
+			return "SKIP not-wf-input-counts"
+		}
+		for _, in := range c.ins {
+			for _, s := range in.sigs {
+				if !s.present {
+					return "SKIP not-wf-nil-sig-element"
+				}
+			}
+		}
+	}
+	o := a.object()
+	if f := a.judgeResult(a.idx, o.validate(a.idx), "first-validation"); f != "" {
+		return f
+	}
+	o.validateAll()
+	if !o.apply(b) {
+		return "SKIP shape-mismatch"
+	}
+	if f := b.judgeResult(b.idx, o.validate(b.idx), "second-validation-after-in-place-change"); f != "" {
+		return f
+	}
+	if o.validateAll() == "true" {
+		for j := range b.ins {
+			if ok, site, detail := b.specValid(j); !ok {
+				return fail(site, detail+"/validate-all-after-in-place-change")
+			}
+		}
+	}
+	return "OK"
+}
+
 func init() {
+	checks["C10/vhist"] = checkC10Vh
 	checks["C10/vsig"] = checkC10Vs
 	checks["C10/disasm"] = func(t *Toks) string { return "OK" }
 }
